@@ -53,7 +53,7 @@ hypotheses: per epoch those of `C01_order_independent_partial` except `hseal` (p
 `OrdererEpochs.EpochsOK`); the forkless-cause oracle is per epoch (the index is reset by a seal).
 
 Not proved: equality of the cheater lists (C03/C06: cheaters are a function of the Atropos'
-ancestry, so they follow from equal Atropoi), restarts combined with seals (C08 is one epoch). The `cons` correspondence stream checks all of
+ancestry, so they follow from equal Atropoi), restarts combined with seals (for the combined model: `Consensus.indexed_restarts_multi_epoch_partial`). The `cons` correspondence stream checks all of
 it on the real code: 2–3 instances, each with its own random parents-first order, must emit identical
 blocks, cheaters and epoch switches, equal to the order-free reference.
 Composition with the vector index (hypotheses `hobs`, `hvals`, `hbound` discharged for the combined model `Model/Indexed.lean` = Orderer over each instance's own index; cheater lists included): `Consensus.indexed_order_independent_partial`, `Consensus.indexed_blocks_cheaters_partial` (Props/Consensus.lean).
